@@ -480,7 +480,7 @@ Qed.
 (* samples "a\0r1", "b\0r2\05"; predicate value > 3: the cell (b, r2) goes, row r2 goes, but column b
    stays (the predicate is false for the absent cell (b, r1) = 0) with its old total 5 *)
 Theorem trim_refuted :
-  exists h pred, let t := t_run 0%N h in trim pred t <> spec_trim pred t.
+  exists h pred, let t := t_run [0%N] h in trim pred t <> spec_trim pred t.
 Proof.
   exists [[97;0;114;49]; [98;0;114;50;0;53]]%N, (fun _ _ v => 3 <? v). cbv zeta.
   intros H. apply (f_equal t_cols) in H. vm_compute in H. discriminate.
@@ -489,7 +489,7 @@ Qed.
 (* samples "a\0r1", "b\0r1"; column predicate "= a": the row keeps the sum 2 of the two cells *)
 Theorem trim_refuted_colpred :
   exists h sel, let pred := fun c (_ : bytes) (_ : Z) => sel c in
-                let t := t_run 0%N h in trim pred t <> spec_trim pred t.
+                let t := t_run [0%N] h in trim pred t <> spec_trim pred t.
 Proof.
   exists [[97;0;114;49]; [98;0;114;49]]%N, (fun c => beq c [97%N]). cbv zeta.
   intros H. apply (f_equal t_rows) in H. vm_compute in H. discriminate.
